@@ -474,8 +474,23 @@ func ruleSibEquality(c *Ctx, r *R) {
 			r.undecided("unresolved:Array.prototype."+name, "-", "UNRESOLVED")
 			continue
 		}
-		strict := len(staticCallsIn(fn, "strictEqualityComparison")) + strictCalcCalls(fn)
-		r.check(strict >= 1 && len(staticCallsIn(fn, "sameValue")) == 0, "strict:Array.prototype."+name, c.Pos(fn.Pos()), "compares with the strict equality algorithm", fmt.Sprintf("Array.prototype.%s must compare with the strict equality algorithm (§15.4.4.14 step 9.b.ii): %d strict comparison(s), %d sameValue call(s)", name, strict, len(staticCallsIn(fn, "sameValue"))))
+		// the function and the helpers split out of it (functions of the package that take the object or the call)
+		family := []*ssa.Function{fn}
+		for _, b := range fn.Blocks {
+			for _, ins := range b.Instrs {
+				if call, ok := ins.(*ssa.Call); ok {
+					if cl := call.Call.StaticCallee(); cl != nil && len(cl.Blocks) > 0 && cl.Pkg == fn.Pkg && cl.Signature.Recv() == nil && strings.HasPrefix(cl.Name(), "array") {
+						family = append(family, cl)
+					}
+				}
+			}
+		}
+		strict, same := 0, 0
+		for _, f := range family {
+			strict += len(staticCallsIn(f, "strictEqualityComparison")) + strictCalcCalls(f)
+			same += len(staticCallsIn(f, "sameValue"))
+		}
+		r.check(strict >= 1 && same == 0, "strict:Array.prototype."+name, c.Pos(fn.Pos()), "compares with the strict equality algorithm", fmt.Sprintf("Array.prototype.%s must compare with the strict equality algorithm (§15.4.4.14 step 9.b.ii): %d strict comparison(s), %d sameValue call(s)", name, strict, same))
 	}
 	var swFn *ssa.Function
 	for _, fn := range c.AllSrcFuncs("") {
@@ -818,8 +833,40 @@ func nanFreeFunctions(c *Ctx) map[*ssa.Function]string {
 				}
 			}
 		}
-		if hasNaNGuard && fn.Name() == "toIntegerFloat" {
+		if hasNaNGuard && (fn.Name() == "toIntegerFloat" || isFloatToInteger(fn)) {
 			out[fn] = "returns 0 for NaN"
+		}
+	}
+	// delegation: a float64 function all of whose returns are the result of a NaN-free function is NaN-free too
+	for changed := true; changed; {
+		changed = false
+		for _, fn := range c.AllSrcFuncs("") {
+			if _, done := out[fn]; done || fn.Signature.Results().Len() != 1 {
+				continue
+			}
+			if b, ok := fn.Signature.Results().At(0).Type().Underlying().(*types.Basic); !ok || b.Kind() != types.Float64 {
+				continue
+			}
+			n, all := 0, true
+			for _, blk := range fn.Blocks {
+				ret, ok := blk.Instrs[len(blk.Instrs)-1].(*ssa.Return)
+				if !ok {
+					continue
+				}
+				n++
+				call, isCall := ret.Results[0].(*ssa.Call)
+				if !isCall || call.Call.StaticCallee() == nil {
+					all = false
+					continue
+				}
+				if _, free := out[call.Call.StaticCallee()]; !free {
+					all = false
+				}
+			}
+			if n > 0 && all {
+				out[fn] = "returns what a NaN-free function returns"
+				changed = true
+			}
 		}
 	}
 	return out
@@ -1390,7 +1437,12 @@ func ruleSpecCanPutOrder(c *Ctx, r *R) {
 				}
 			}
 		}
+		ordinary := c.partOf(fn, "objectCanPutDetails", 0) || c.partOf(fn, "objectCanPut", 0) || c.partOf(fn, "objectPut", 0)
 		if len(lookups) == 0 {
+			if ordinary && c.eClean("SPEC-put-delete") {
+				r.ok(ssaFuncName(fn)+":lookup", c.Pos(fn.Pos()), subsumedBy("SPEC-put-delete"))
+				continue
+			}
 			r.undecided("unresolved:"+ssaFuncName(fn)+":lookup", c.Pos(fn.Pos()), "UNRESOLVED: no inherited lookup obj.prototype.getProperty(...) in the [[CanPut]] implementation")
 			continue
 		}
@@ -1428,6 +1480,10 @@ func ruleSpecCanPutOrder(c *Ctx, r *R) {
 					continue
 				}
 				key := fmt.Sprintf("%s:extensible", ssaFuncName(fn))
+				if early[ld] && ordinary && c.eClean("SPEC-put-delete") {
+					r.ok(key, c.Pos(instrPos(ld)), subsumedBy("SPEC-put-delete"))
+					continue
+				}
 				r.check(!early[ld], key, c.Pos(instrPos(ld)), "read only after the inherited lookup or under prototype == nil", "§8.12.4: object.extensible can be read on a path that has neither looked up the inherited property nor established prototype == nil: a non-extensible (sealed, frozen) object then answers from the flag although an inherited accessor's setter must decide (step 7)")
 			}
 		}
@@ -1435,6 +1491,22 @@ func ruleSpecCanPutOrder(c *Ctx, r *R) {
 }
 
 func ruleSibIntegrity(c *Ctx, r *R) {
+	// an obligation this rule cannot see in the shape of the code is decided by SPEC-integrity, which evaluates the six
+	// built-ins on their whole domain
+	check := func(cond bool, key, site, okDetail, badDetail string) {
+		if !cond && c.eClean("SPEC-integrity") {
+			r.ok(key, site, subsumedBy("SPEC-integrity"))
+			return
+		}
+		r.check(cond, key, site, okDetail, badDetail)
+	}
+	bad := func(key, site, detail string) {
+		if c.eClean("SPEC-integrity") {
+			r.ok(key, site, subsumedBy("SPEC-integrity"))
+			return
+		}
+		r.bad(key, site, detail)
+	}
 	fns := c.Shape().boundSSA(c, "Object")
 	type facts struct {
 		calls       map[string][]*ssa.Call
@@ -1495,20 +1567,20 @@ func ruleSibIntegrity(c *Ctx, r *R) {
 		f := collect(fn)
 		site := c.Pos(fn.Pos())
 		for _, m := range sp.must {
-			r.check(len(f.calls[m]) > 0, "Object."+name+":"+m, site, "uses "+m, fmt.Sprintf("%s: Object.%s never calls %s", sp.clause, name, m))
+			check(len(f.calls[m]) > 0, "Object."+name+":"+m, site, "uses "+m, fmt.Sprintf("%s: Object.%s never calls %s", sp.clause, name, m))
 		}
 		for _, m := range sp.mustNot {
 			if len(f.calls[m]) > 0 {
-				r.bad("Object."+name+":not:"+m, c.Pos(instrPos(f.calls[m][0])), fmt.Sprintf("%s: Object.%s calls %s, which its algorithm does not touch", sp.clause, name, m))
+				bad("Object."+name+":not:"+m, c.Pos(instrPos(f.calls[m][0])), fmt.Sprintf("%s: Object.%s calls %s, which its algorithm does not touch", sp.clause, name, m))
 			}
 		}
 		if sp.clearsExt {
-			r.check(f.extStore && f.extStoreVal == "false", "Object."+name+":extensible=false", site, "clears [[Extensible]]", fmt.Sprintf("%s: Object.%s does not set object.extensible to false", sp.clause, name))
+			check(f.extStore && f.extStoreVal == "false", "Object."+name+":extensible=false", site, "clears [[Extensible]]", fmt.Sprintf("%s: Object.%s does not set object.extensible to false", sp.clause, name))
 		} else {
-			r.check(!f.extStore, "Object."+name+":no-extensible-store", site, "does not write [[Extensible]]", fmt.Sprintf("%s: Object.%s writes object.extensible; a query must not", sp.clause, name))
+			check(!f.extStore, "Object."+name+":no-extensible-store", site, "does not write [[Extensible]]", fmt.Sprintf("%s: Object.%s writes object.extensible; a query must not", sp.clause, name))
 		}
 		if sp.readsExt {
-			r.check(f.extLoad, "Object."+name+":reads-extensible", site, "reads [[Extensible]]", fmt.Sprintf("%s: Object.%s never reads object.extensible", sp.clause, name))
+			check(f.extLoad, "Object."+name+":reads-extensible", site, "reads [[Extensible]]", fmt.Sprintf("%s: Object.%s never reads object.extensible", sp.clause, name))
 		}
 	}
 	// freeze: the two attribute clearings are independent
@@ -1542,14 +1614,14 @@ func ruleSibIntegrity(c *Ctx, r *R) {
 		if d1 {
 			site = c.Pos(instrPos(at1))
 		}
-		r.check(!d1, "Object.freeze:writeOff-independent", site, "clearing [[Writable]] does not depend on configurable()", "§15.2.3.9 step 2.a: Object.freeze clears [[Writable]] only under a test of configurable(): a property that is already non-configurable but still writable (after Object.seal, or defineProperty with configurable:false) stays writable in a 'frozen' object")
+		check(!d1, "Object.freeze:writeOff-independent", site, "clearing [[Writable]] does not depend on configurable()", "§15.2.3.9 step 2.a: Object.freeze clears [[Writable]] only under a test of configurable(): a property that is already non-configurable but still writable (after Object.seal, or defineProperty with configurable:false) stays writable in a 'frozen' object")
 		site = c.Pos(fn.Pos())
 		if d2 {
 			site = c.Pos(instrPos(at2))
 		} else if d3 {
 			site = c.Pos(instrPos(at3))
 		}
-		r.check(!d2 && !d3, "Object.freeze:configureOff-independent", site, "clearing [[Configurable]] does not depend on the property being a writable data property", "§15.2.3.9 step 2.b: Object.freeze clears [[Configurable]] only for writable / data properties: accessors and read-only properties stay configurable")
+		check(!d2 && !d3, "Object.freeze:configureOff-independent", site, "clearing [[Configurable]] does not depend on the property being a writable data property", "§15.2.3.9 step 2.b: Object.freeze clears [[Configurable]] only for writable / data properties: accessors and read-only properties stay configurable")
 	}
 }
 
@@ -2105,51 +2177,57 @@ func ruleOrderArrayDefine(c *Ctx, r *R) {
 		r.undecided("unresolved:arrayDefineOwnProperty", "-", "UNRESOLVED: the array class has no defineOwnProperty implementation")
 		return
 	}
-	// calls of the ordinary define: classified by their name argument (the constant "length" or something else)
-	var lengthDefs, elemDefs []*ssa.Call
-	for _, b := range fn.Blocks {
-		for _, ins := range b.Instrs {
-			call, ok := ins.(*ssa.Call)
-			if !ok || call.Call.StaticCallee() == nil || call.Call.StaticCallee().Name() != "objectDefineOwnProperty" || len(call.Call.Args) < 2 {
-				continue
-			}
-			if k, ok := call.Call.Args[1].(*ssa.Const); ok {
-				if str, isStr := constStringVal(k); isStr && str == "length" {
-					lengthDefs = append(lengthDefs, call)
+	// the implementation and the helpers split out of it (functions only it calls)
+	family := []*ssa.Function{fn}
+	for _, f := range c.AllSrcFuncs("") {
+		if f != fn && f.Parent() == nil && c.partOf(f, ssaFuncName(fn), 0) {
+			family = append(family, f)
+		}
+	}
+	n, nLen, nElem := 0, 0, 0
+	for _, f := range family {
+		// calls of the ordinary define: classified by their name argument (the constant "length" or something else)
+		var lengthDefs, elemDefs []*ssa.Call
+		for _, b := range f.Blocks {
+			for _, ins := range b.Instrs {
+				call, ok := ins.(*ssa.Call)
+				if !ok || call.Call.StaticCallee() == nil || call.Call.StaticCallee().Name() != "objectDefineOwnProperty" || len(call.Call.Args) < 2 {
 					continue
 				}
+				if k, ok := call.Call.Args[1].(*ssa.Const); ok {
+					if str, isStr := constStringVal(k); isStr && str == "length" {
+						lengthDefs = append(lengthDefs, call)
+						continue
+					}
+				}
+				elemDefs = append(elemDefs, call)
 			}
-			elemDefs = append(elemDefs, call)
 		}
-	}
-	// the index branch: element defines dominated by a stringToArrayIndex call
-	var idxCall ssa.Instruction
-	for _, ci := range staticCallsIn(fn, "stringToArrayIndex") {
-		idxCall = ci
-	}
-	if idxCall == nil || len(lengthDefs) == 0 || len(elemDefs) == 0 {
-		r.undecided("unresolved:shape", c.Pos(fn.Pos()), fmt.Sprintf("UNRESOLVED: index test found=%v, length defines=%d, element defines=%d", idxCall != nil, len(lengthDefs), len(elemDefs)))
-		return
-	}
-	n := 0
-	for _, e := range elemDefs {
-		if !dominatesInstr(idxCall, e) {
-			continue // the name == "length" branch and the fall-through
+		nLen += len(lengthDefs)
+		nElem += len(elemDefs)
+		// the index branch: what a stringToArrayIndex call dominates (a helper that is the index branch has no such
+		// call of its own: all of it counts)
+		var idxCall ssa.Instruction
+		for _, ci := range staticCallsIn(f, "stringToArrayIndex") {
+			idxCall = ci
 		}
-		for _, l := range lengthDefs {
-			if !dominatesInstr(idxCall, l) {
-				continue
+		for _, e := range elemDefs {
+			if idxCall != nil && !dominatesInstr(idxCall, e) {
+				continue // the name == "length" branch and the fall-through
 			}
-			n++
-			r.check(!reachesInstr(l, e), fmt.Sprintf("element-before-length#%d", n), c.Pos(instrPos(e)), "the element is defined before length is raised", "§15.4.5.1 step 4: in the index branch the length property is redefined before the element: when the element's define is rejected (sealed or non-extensible array) length has already grown")
+			for _, l := range lengthDefs {
+				if idxCall != nil && !dominatesInstr(idxCall, l) {
+					continue
+				}
+				n++
+				r.check(!reachesInstr(l, e), fmt.Sprintf("element-before-length#%d", n), c.Pos(instrPos(e)), "the element is defined before length is raised", "§15.4.5.1 step 4: in the index branch the length property is redefined before the element: when the element's define is rejected (sealed or non-extensible array) length has already grown")
+			}
 		}
 	}
 	if n == 0 {
-		r.undecided("pairs", c.Pos(fn.Pos()), "no element/length define pair found in the index branch")
+		r.undecided("unresolved:shape", c.Pos(fn.Pos()), fmt.Sprintf("UNRESOLVED: no element / length define pair found in the index branch (length defines=%d, element defines=%d in %d functions)", nLen, nElem, len(family)))
 	}
 }
-
-// ---- SIB-regexp-scan, CLONE-otto ---------------------------------------------------------------------------------------
 
 func init() {
 	register(&Rule{ID: "SIB-regexp-scan", Props: []string{"C10"}, Min: 3,
